@@ -37,12 +37,8 @@ BOUNDS = ("3 durative skeletons inside TimedToSequential.supported_kind() (Boole
           "increased by another action); problem.epsilon in {None, 1/8, 3}; every compiled plan of length 0..2 (quick) / 0..3 (thorough)")
 OUTSIDE = ("conditional effects and intermediate conditions/effects (outside the compiler's supported kind), interpreted functions, "
            "object parameters in durations, problem.epsilon = 0, the zero-length duration interval [0,0] (start and end of the action are then one "
-           "happening for the validator, while the compiled action applies start effects and then end effects), non-global environments "
-           "(one concrete shard)")
+           "happening for the validator, while the compiled action applies start effects and then end effects)")
 ASSUMPTIONS = [
-    "the problem lives in the global environment: TimedToSequential._compile creates its InstantaneousActions without an environment, so "
-    "the path's fresh Environment is installed as GLOBAL_ENVIRONMENT around compile / plan_back_conversion (vf/tplan.as_global); the "
-    "non-global case is the subject of shard env-nonglobal",
     "constant duration intervals the library itself rejects as empty (UPProblemDefinitionError in set_duration_constraint) are pruned",
     "hash-consing tables keyed syntactically for symbolic constants (S2'); counterexamples are replayed with the real tables",
 ]
@@ -174,7 +170,7 @@ def _bounds_at(S, n_now):
     return S["lo"], S["hi"]
 
 
-def h_t2s(ctx, sk, lo_open, hi_open, sym, bound="const", nmode="pruned", eps=None, max_len=2, den=1, use_global=True):
+def h_t2s(ctx, sk, lo_open, hi_open, sym, bound="const", nmode="pruned", eps=None, max_len=2, den=1, use_global=False):
     import contextlib
 
     from unified_planning.engines.compilers.timed_to_sequential import TimedToSequential
@@ -240,8 +236,9 @@ def h_t2s(ctx, sk, lo_open, hi_open, sym, bound="const", nmode="pruned", eps=Non
     ctx.witness("converted-valid")
 
 
-def h_env(ctx):
-    h_t2s(ctx, "bool", 0, 0, {}, max_len=2, use_global=False)
+def h_env(ctx, use_global):
+    """concrete bounds; compile / back conversion in the path's own (non-global) environment resp. with it installed as the global one"""
+    h_t2s(ctx, "bool", 0, 0, {}, max_len=2, use_global=use_global)
 
 
 def shards(tier, seed):
@@ -282,7 +279,8 @@ def shards(tier, seed):
                nmode="changed")
             sh(f"inst-lowerfl-{tag}-eps", sk="inst", lo_open=lo_open, hi_open=hi_open, sym=dict(ku=[0, 8], n0=[0, 8]), bound="lower",
                nmode="changed", eps="1/8")
-    out.append(dict(name="env-nonglobal", fn="h_env", kwargs={}, budget=60, engine="direct"))
+    out.append(dict(name="env-nonglobal", fn="h_env", kwargs=dict(use_global=False), budget=60, engine="direct"))
+    out.append(dict(name="env-global", fn="h_env", kwargs=dict(use_global=True), budget=60, engine="direct"))
     return out
 
 
@@ -291,5 +289,5 @@ MANIFEST = dict(
     technique="symbolic execution (CrossHair/z3) of the real TimedToSequential compiler, back conversion and both validators on durative skeletons with symbolic duration bounds and a symbolic initial value of the bound fluent; compiled plans enumerated by choice variables; 'duration inside its interval' as a linear solver query per action instance",
     text="Translation validation, bounded: for each skeleton, each open/closed combination, EVERY value of the symbolic bounds / initial value in the windows and every compiled plan up to the length bound that the real SequentialPlanValidator accepts, "
          "the plan returned by plan_back_conversion has every duration inside its action's duration interval (solver query) and is accepted by the real TimeTriggeredPlanValidator for the original problem.",
-    note="Trusted: CrossHair's int/Fraction model, z3, the harness-side tracking of the bound fluent. Compile/back-conversion are run with the path's environment installed as the global one (the compiler builds its actions in the global environment); one concrete shard runs them in a non-global environment. Outside: conditional/intermediate effects (unsupported kind), interpreted functions, epsilon = 0.",
+    note="Trusted: CrossHair's int/Fraction model, z3, the harness-side tracking of the bound fluent. Every path compiles in its own fresh (non-global) Environment; one concrete shard does so with that environment installed as the global one. Outside: conditional/intermediate effects (unsupported kind), interpreted functions, epsilon = 0.",
 )
